@@ -761,7 +761,7 @@ func isEnclosing(outer, inner *ssa.Function) bool {
 
 func init() {
 	Register(&Rule{ID: "R-PAR-13", Props: []string{"C12"}, Floor: 10,
-		Doc: "the number of workers only decides how the work is split: a value derived from Flags.CPU or GoroutineTaskManager.Number is used in lib/query only as the cpu argument of the task manager's constructor, as a loop bound or allocation length over the workers, in the test `1 < Number` that chooses between spawning and running inline, and by the flag plumbing (SET / SHOW) — never in another branch condition (choosing an algorithm, an operand order or an output order by the number of goroutines makes the rows or their order depend on --cpu)",
+		Doc:      "the number of workers only decides how the work is split: a value derived from Flags.CPU or GoroutineTaskManager.Number is used in lib/query only as the cpu argument of the task manager's constructor, as a loop bound or allocation length over the workers, in the test `1 < Number` that chooses between spawning and running inline, and by the flag plumbing (SET / SHOW) — never in another branch condition (choosing an algorithm, an operand order or an output order by the number of goroutines makes the rows or their order depend on --cpu)",
 		Controls: []string{"CtlBranchOnCPU"},
 		Run:      rulePar13})
 }
